@@ -3,6 +3,7 @@
 #include "sched.h"
 
 #include "sched_dml.h"
+#include "sched_misc.h"
 
 int main(int argc, char** argv) {
     FLAGS_logtostderr = true;
@@ -10,6 +11,9 @@ int main(int argc, char** argv) {
     google::InitGoogleLogging(argv[0]);
     vf::RunnerArgs args = vf::parse_args(argc, argv);
     return vf::runner_main(args, [](const vf::RunnerArgs& a, const std::vector<std::uint8_t>& b, bool record, vf::Stats& st) {
+        if (a.prop == "C14") { return misc::run_sessions(a, b, record, st); }
+        if (a.prop == "C17") { return misc::run_version(a, b, record, st); }
+        if (a.prop == "C13") { return misc::run_ddl(a, b, record, st); }
         return dml::run_case(a, b, record, st);
     });
 }
